@@ -354,6 +354,10 @@ func c19Gen(t *rapid.T) c19Case {
 		for k := rapid.IntRange(0, 3).Draw(t, "nhostile"); k > 0; k-- {
 			fields = append(fields, pick(t, "hostile", c19Hostile...))
 		}
+		if chance(t, "bigfield", 4) {
+			// a long free-text field (a pasted address, a base64 avatar): the request is as valid as without it
+			fields = append(fields, c19Field{pick(t, "bigname", "address", "note", "avatar"), strings.Repeat(pick(t, "bigchar", "x", "Ab1!"), rapid.IntRange(16000, 20000).Draw(t, "bigreps"))})
+		}
 		for k := rapid.IntRange(0, 2).Draw(t, "ndup"); k > 0; k-- {
 			// duplicate of an existing field with a different value, before or after the original
 			if len(fields) == 0 {
